@@ -96,13 +96,22 @@ def build_module(rng, g, n_roots):
     return helpers, roots
 
 
-LIB_CALL = '''    move_by_waypoints(ilist.IList([spec.get_static_trap(zone_id="A"), grid.shift(spec.get_static_trap(zone_id="A"), 1.0, 2.0)]), True, True)
+TKQ = '''@tweezer
+def tkq(n: int):
+    action.set_loc(spec.get_static_trap(zone_id="A"))
+    action.move(grid.shift(spec.get_static_trap(zone_id="A"), 1.0, 2.0))
+
+'''
+
+LIB_CALL = '''    dq = schedule.device_fn(tkq, ilist.IList([0, 1, 2]), ilist.IList([0, 1]))
+    dq(1)
+    move_by_waypoints(ilist.IList([spec.get_static_trap(zone_id="A"), grid.shift(spec.get_static_trap(zone_id="A"), 1.0, 2.0)]), True, True)
 '''
 
 
 def module_source(helpers, roots, order, assign):
     """roots defined in `order`; assign[i] = slot name of root i's spec, or None (left unspecialised)"""
-    out = [L.HDR, "from bloqade.shuttle.stdlib.waypoints import move_by_waypoints\nfrom harness.props import c07 as _C07\n\n"]
+    out = [L.HDR, "from bloqade.shuttle.stdlib.waypoints import move_by_waypoints\nfrom harness.props import c07 as _C07\n\n", TKQ]
     for f in helpers:
         out.append("\n".join(L.fn_source(f, 0, True)) + "\n\n")
     for i in order:
